@@ -9,7 +9,10 @@ DRIVER = 'drv_c02'
 HARNESS = 'c02.cpp'
 SOURCES = ['src/geodesy/ENUConverter.cpp', 'src/geodesy/ECEFConverter.cpp', 'src/geodesy/EarthEllipsoid.cpp',
            'src/geodesy/GeodeticCoordinates.cpp', 'src/geodesy/WGS84Coordinates.cpp']
-PROOF_MODULES = ['RomeaProofs.Properties.C02']
+# ECEFConverter.cpp is an anchored file of C02 too (toWGS84 / toECEF are called by every geodetic overload): the C01 bridge —
+# ECEFConverter as translated from today's source = the model — is therefore an obligation of this check as well
+# (stage G below regenerates Generated/SrcC01.lean through c01.regen)
+PROOF_MODULES = ['RomeaProofs.Properties.C02', 'RomeaProofs.Bridge.C01', 'RomeaProofs.Bridge.C01Cor']
 TRUSTED = ['the model mirrors Eigen 3.4 fixed-size code paths (Transform*Vector3d, Transform::inverse by 3x3 cofactors); that they '
            'are what the compiled code does is checked by the correspondence run (bit-exact on this image), not proved',
            'the probe computes its reference frame (up = ellipsoid normal, east = z x up normalised, north = up x east; anchor '
@@ -125,6 +128,34 @@ def _local(rng):
     return (r * math.cos(th), r * math.sin(th), rng.uniform(-1e4, 1e4) if m != 2 else 0.0)
 
 
+def _local_on_ecef_plane(rng, anchor):
+    """a local point (within ~100 km of the anchor) whose ECEF image has one coordinate a few millimetres..decimetres from 0 (or exactly
+    0): the equatorial plane Z = 0 and the meridian planes X = 0, Y = 0 are where a converter is tempted to special-case (seeded
+    change c02c: `if (|Z| < 1e-8 * norm)` snaps 6 cm onto the equator). None when the anchor is too far from all three planes."""
+    v0 = _local(rng)
+    P = list(_to_ecef(anchor, v0))
+    ks = [k for k in range(3) if abs(P[k]) < 9.0e4]
+    if not ks:
+        return None
+    k = rng.choice(ks)
+    P[k] = rng.choice([0.0, 1e-4, 1.5e-3, 0.01, 0.04, 0.3, 2.0]) * rng.choice([1.0, -1.0])
+    return _to_local(anchor, tuple(P))
+
+
+def _plane_anchor(rng):
+    """anchor within ~0.7 degree of the equator or of one of the four meridians 0, +-90, 180 degrees"""
+    lat, lon, alt = _anchor(rng, False)
+    d = rng.choice([0.0, 1e-9, 1e-5, 3e-3, 1.2e-2]) * rng.choice([1.0, -1.0])
+    m = rng.below(3)
+    if m == 0:
+        lat = d
+    elif m == 1:
+        lon = _wrap(rng.choice([0.0, math.pi / 2, -math.pi / 2, math.pi]) + d)
+    else:
+        lat, lon = d, _wrap(rng.choice([0.0, math.pi / 2, -math.pi / 2, math.pi]) - d)
+    return (lat, lon, alt)
+
+
 def _geo_near(rng, a):
     """geodetic point within ~70 km of the anchor (so within 100 km horizontally), height within 10 km"""
     m = rng.below(8)
@@ -229,6 +260,20 @@ def gen_cases(rng, tier):
         boundary = (i % 4 == 0)
         cases.append({'name': 'seq-%d%s' % (i, '-b' if boundary else ''),
                       'lines': _sequence(rng, rng.int(3, 30), boundary), 'meta': {}})
+    # points on / next to the coordinate planes of the ECEF frame, through every overload that goes through ECEFConverter
+    for i in range(40 if tier == 'quick' else 2000):
+        a = _plane_anchor(rng)
+        lines = [_g('enu.newat', a)]
+        for _ in range(rng.int(3, 8)):
+            v = _local_on_ecef_plane(rng, a)
+            if v is None:
+                break
+            op = rng.choice(['enu.rt_wgs', 'enu.towgs', 'enu.towgs3', 'enu.rt_ecef', 'enu.toecef'])
+            lines.append(_g(op, v))
+            if rng.chance(0.5):
+                lines.append(_g('enu.rt_inv', _to_ecef(a, v)))
+        if len(lines) > 1:
+            cases.append({'name': 'ecef-plane-%d' % i, 'lines': lines, 'meta': {}})
     # the reset / stored-altitude scenario, explicitly
     for i in range(10 if tier == 'quick' else 200):
         a1, a2 = _anchor(rng, True), _anchor(rng, False)
